@@ -328,7 +328,7 @@ func genWorld(r *sim.Rng, odd bool, faultRate float64, maxRuns int) *GPlan {
 	}
 	p.ReuseHandlers = r.Bool(0.2)
 	n := r.Range(1, maxRuns)
-	if maxRuns >= 2 && r.Bool(0.08) {
+	if maxRuns >= 2 && (r.Bool(0.08) || odd && r.Bool(0.12)) {
 		p.Overlap, p.OverlapAt, p.ReuseHandlers = true, r.Intn(5), false
 		n = max(n, 2)
 	}
